@@ -45,10 +45,17 @@ func (c *PublishHeader) WriteHTMLTo(w io.Writer) (int64, error) {
 	if c.options.ShowIndividuals {
 		badge := core.NewCountBadge(len(c.document.Individuals()))
 		title := core.NewComponents(core.NewText("Individuals "), badge)
+		// There are no pages for the individuals if there are no individuals
+		// to list (or all of them are hidden).
+		individualsPage := "#"
+		if len(c.indexLetters) > 0 {
+			individualsPage = PageIndividuals(c.indexLetters[0])
+		}
+
 		item := core.NewNavItem(
 			title,
 			c.selectedTab == selectedIndividualsTab,
-			PageIndividuals(c.indexLetters[0]),
+			individualsPage,
 		)
 		items = append(items, item)
 	}
